@@ -97,7 +97,7 @@ def tstr(t, depth=0):
 
 
 def subterms(t, depth=0):
-    if isinstance(t, tuple) and depth < 40:
+    if isinstance(t, tuple) and t and depth < 40:
         yield t
         for x in t:
             if isinstance(x, tuple):
@@ -1559,6 +1559,16 @@ def iter_chain(it, depth=0):
         else:
             break
     return it, kinds
+
+
+def canon(t, depth=0):
+    """Rewrite element/position terms to name the *source* of the iteration instead of the adaptor chain:
+    ('elem', adaptors(root), n) -> ('elem', root, n). Lets rules compare elements across filter/map/enumerate."""
+    if not isinstance(t, tuple) or depth > 40:
+        return t
+    if t and t[0] in ('elem', 'pos') and len(t) >= 2:
+        return (t[0], canon(iter_chain(t[1])[0], depth + 1)) + tuple(t[2:])
+    return tuple(canon(x, depth + 1) if isinstance(x, tuple) else x for x in t)
 
 
 def lin(t, depth=0):
